@@ -1054,6 +1054,15 @@ def _c_vector_data(ctx):
     got = np.stack([np.asarray(d["data_x"], float), np.asarray(d["data_y"], float)])
     comps = [0 * q["r"] + (k == i) for k in range(ctx.dim)]
     _report_tocart(ctx, f"get_vector_data unit field e_{ctx.ref[i]}", got, comps, q, mask, 1.0, f"get_vector_data of e_{ctx.ref[i]}")
+    # transpose=True mirrors the plot at the diagonal: positions (x, y) -> (y, x) AND components (v_x, v_y) -> (v_y, v_x)
+    t = VectorField(g, data).get_vector_data(transpose=True)
+    ctx.n += 1
+    for a, b in (("x", "y"), ("y", "x")):
+        if not np.array_equal(np.asarray(t[a]), np.asarray(d[b])):
+            ctx.bad("to_cartesian", f"other|get_vector_data(transpose=True) coordinate {a}", f"{a} of the transposed data is not {b} of the plain data")
+        if not np.array_equal(np.asarray(t["data_" + a]), np.asarray(d["data_" + b]).T):
+            ctx.bad("to_cartesian", f"other|get_vector_data(transpose=True) component along {a}",
+                    f"component along the plotted {a} direction of the transposed data is not the (transposed) {b}-component of e_{ctx.ref[i]}")
 
 
 # -- commutation of the conversion with divergence / gradient --------------------------------------
